@@ -400,6 +400,7 @@ def run(ctx):
     st0 = [x for x in walk_own(w2j.node) if isinstance(x, ast.AnnAssign | ast.Assign) and norm(getattr(x, "target", None) or x.targets[0]) == "stack"]
     r6.check(bool(st0) and "json_dict.get(constants.CHILDREN)" in norm(st0[0].value), "workbook_to_json:root frame", "the root frame's children list is the JSON root's children list", w2j.loc())
     rules.append(r6)
+    rules.append(tree_agreement_rule(ctx, "C02", "C02.R7"))
     return rules
 
 
@@ -409,6 +410,102 @@ def _subst_arg(fi, val):
         if isinstance(n, ast.Call) and call_name(n) == "insert_xpaths" and n.args:
             return n.args[0]
     return None
+
+
+AGREEMENT_TREES = {
+    "groups and repeats": ("data", [("q", "a"), ("g", "g1", [("q", "b"), ("r", "r1", [("q", "c"), ("g", "g2", [("q", "d")])])]), ("r", "r2", [("q", "e"), ("r", "r3", [("q", "f")])]), ("q", "z")]),
+    "hidden rows inside groups": ("data", [("g", "gh", [("q", "calc1", {"type": "calculate", "label": None, "bind": {"type": "string", "calculate": "1"}}),
+                                                        ("g", "gi", [("q", "calc2", {"type": "calculate", "label": None, "bind": {"type": "string", "calculate": "2"}})])]), ("q", "v")]),
+    "flat groups": ("data", [("g", "fg", [("q", "fa"), ("g", "fh", [("q", "fb")])]), ("q", "fz")]),
+    "flat group and repeat": ("data", [("g", "fg", [("q", "fa")]), ("r", "kids", [("q", "kname")]), ("q", "fz")]),
+}
+
+
+def tree_agreement_rule(ctx, prop, rid, want_body=True):
+    """On bounded trees the three views of a form agree: every element's own path (real get_xpath) names a node of the
+    primary instance built by the real instance builders; every nodeset / ref of the body built by the real control
+    builders names such a node too; and every group / repeat that is not bodyless has its own body element, nested as
+    in the instance, whatever its children are."""
+    from .. import trees
+    from ..interp import NodeVal as NV
+    from ..xmlmodel import node_hook
+    r = Rule(prop, rid, "instance, element paths and body agree on bounded trees", floor=40,
+             necessary="a bind / control whose path names no instance node is dangling; a group missing from the body changes the nesting the user sees")
+    repo = ctx.repo
+    scls = repo.cls("pyxform.survey:Survey")
+    sec = repo.cls("pyxform.section:Section")
+    se = repo.cls("pyxform.survey_element:SurveyElement")
+    hooks = {"fnname:node": node_hook,
+             "fnname:insert_xpaths": lambda i, a, k, n: next((x for x in a if isinstance(x, str)), k.get("text")),
+             "fnname:insert_output_values": lambda i, a, k, n: (next((x for x in a if isinstance(x, str)), k.get("text")), False)}
+    for tname, spec in AGREEMENT_TREES.items():
+        flat = tname.startswith("flat")
+        survey, by_name, everything = trees.build(ctx, spec)
+        if flat:
+            for e in everything:
+                if e.attrs.get("children") is not None:
+                    e.attrs["flat"] = True
+        it = ctx.interp(rid, hooks=hooks)
+        it.reset([])
+        try:
+            inst = it.call_function(sec.methods["xml_instance"], [survey], {"survey": survey}, None, None)
+        except Raised as e:
+            r.fail(f"tree[{tname}]:instance", f"instance builder evaluates ({e.exc_name}{e.exc_args})", sec.methods["xml_instance"].loc())
+            continue
+        paths = set()
+
+        def walk(n, prefix):
+            if not isinstance(n, NV):
+                return
+            p = f"{prefix}/{n.tag}"
+            if "jr:template" not in n.attrs:
+                paths.add(p)
+            for c in n.children:
+                walk(c, p)
+        walk(inst, "")
+        for e in everything:
+            it.reset([])
+            try:
+                xp = it.call_function(se.methods["get_xpath"], [e], {}, None, None)
+            except Raised as ex:
+                r.fail(f"tree[{tname}]:{e.name}", f"get_xpath evaluates ({ex.exc_name})", se.methods["get_xpath"].loc())
+                continue
+            is_section = e.attrs.get("children") is not None
+            if flat and is_section and e.attrs.get("type") == "group":
+                continue  # a flat group has no node of its own
+            r.check(xp in paths, f"tree[{tname}]:path of {e.name}", "the element's own path names a node of the primary instance", se.methods["get_xpath"].loc(),
+                    why_fail=f"{xp} not among {sorted(paths)}")
+        if not want_body:
+            continue
+        it.reset([])
+        try:
+            body = [c for c in it.call_function(sec.methods["xml_control"], [survey], {"survey": survey}, None, None) if isinstance(c, NV)]
+        except Raised as e:
+            r.fail(f"tree[{tname}]:body", f"control builders evaluate ({e.exc_name}{e.exc_args})", sec.methods["xml_control"].loc())
+            continue
+        refs = []
+
+        def bwalk(n):
+            for k in ("ref", "nodeset"):
+                v = n.attrs.get(k)
+                if isinstance(v, str) and v.startswith("/"):
+                    refs.append((n.tag, k, v))
+            for c in n.children:
+                if isinstance(c, NV):
+                    bwalk(c)
+        for b in body:
+            bwalk(b)
+        for tag, k, v in refs:
+            r.check(v in paths, f"tree[{tname}]:body <{tag} {k}={v}>", "names a node of the primary instance", sec.methods["xml_control"].loc())
+        if not flat:
+            have = {v for tag, k, v in refs if tag in ("group", "repeat")}
+            for e in everything:
+                if e.attrs.get("children") is not None and not ((e.attrs.get("control") or {}).get("bodyless")):
+                    it.reset([])
+                    xp = it.call_function(se.methods["get_xpath"], [e], {}, None, None)
+                    r.check(xp in have, f"tree[{tname}]:body element of {e.name}", "every group and repeat has its own body element, whatever its children are",
+                            sec.methods["xml_control"].loc(), why_fail=f"body group/repeat refs: {sorted(have)}")
+    return r
 
 
 def _slots(ctx, ci):
